@@ -480,6 +480,10 @@ class ProdParser:
             self._log.error('No content to parse.')
             return False, [], None, None
 
+        # what _SorTokens wraps: always the tokens themselves, never an earlier
+        # wrapper, which would nest one generator per term of a long value
+        basetokens = tokens
+
         seq = cssutils.util.Seq(readonly=False)
         if not store:  # store for specific values
             store = {}
@@ -625,7 +629,7 @@ class ProdParser:
                     if prod.nextSor:
                         # following is S or other token (e.g. ",")?
                         # remove S if
-                        tokens = self._SorTokens(tokens, ',/')
+                        tokens = self._SorTokens(basetokens, ',/')
                         defaultS = False
                     else:
                         defaultS = True
